@@ -395,7 +395,7 @@ func (s *Server) manifestPut(repoStr, arg string) http.HandlerFunc {
 			return
 		}
 		// push to blob store
-		bc, _, err := repo.BlobCreate(store.BlobWithDigest(d))
+		bc, _, err := repo.BlobCreate(store.BlobWithDigest(d), store.BlobInternal())
 		if err != nil && !errors.Is(err, types.ErrBlobExists) {
 			w.WriteHeader(http.StatusInternalServerError)
 			s.log.Info("failed to create blob", "repo", repoStr, "arg", arg, "err", err)
